@@ -219,6 +219,10 @@ func c11Scenarios(r *verdict.Run, race bool) {
 			}
 			all = append(all, scn{kind: "h:newest-waiter-leaves", form: f, consumer: []string{leave}})
 		}
+		if f.multi {
+			// a waiter that names the same key twice is still one client: a two-element push serves it and the next waiter
+			all = append(all, scn{kind: "k:waiter-names-key-twice", form: f})
+		}
 		for _, fl := range [][]string{{"FLUSHDB"}, {"FLUSHALL"}, {"MULTI+FLUSHDB"}, {"SELECT1+FLUSHALL"}} {
 			all = append(all, scn{kind: "i:flush-while-blocked", form: f, consumer: fl})
 		}
@@ -555,6 +559,47 @@ func c11Scenarios(r *verdict.Run, race bool) {
 				push("q", "el-2")
 				ok = s.expectServed(wC, "el-2", "sched/lost-wakeup/waiter-orphaned-after-newest-left/"+sc.form.name)
 				note(wC)
+			}
+		case 'k':
+			wB, err := newWaiter(e)
+			if err != nil {
+				return
+			}
+			defer wB.cn.Close()
+			wC, err := newWaiter(e)
+			if err != nil {
+				return
+			}
+			defer wC.cn.Close()
+			c.Ctl("watch blk:before-wait")
+			for k, w := range []*waiter{w1, wB, wC} {
+				from := c.EventCount()
+				wcmd := cmd
+				if k == 0 {
+					wcmd = sc.form.args([]string{"q", "q", "q"}, "0")
+				}
+				w.issue(wcmd, 30*time.Second)
+				s.logf("client %d: %s", w.id, cmdString(wcmd))
+				if _, _, f := c.WaitEvent(from, func(ev host.Event) bool { return ev.Kind == "hit" && ev.Point == "blk:before-wait" && ev.ID == w.id }, 5*time.Second); !f {
+					r.Inconclusive("waiter did not reach blk:before-wait")
+					return
+				}
+			}
+			push("q", "el-1", "el-2")
+			a := w1.finished(3 * time.Second)
+			b := wB.finished(3 * time.Second)
+			if !a || !b {
+				ll := s.do("LLEN", "q")
+				s.r.Report("sched/lost-wakeup/waiter-naming-a-key-twice-uses-two-wakeups/"+sc.form.name, fmt.Sprintf("%s: the first waiter names q three times, a second and a third client wait on q; RPUSH q el-1 el-2 served first=%v second=%v (LLEN q = %s)", s.name, a, b, ll), s.rep())
+				ok = false
+			} else {
+				note(w1)
+				note(wB)
+				s.expectStillBlocked(wC, "sched/fifo/third-waiter-completed/"+sc.form.name)
+				push("q", "el-3")
+				if wC.finished(3 * time.Second) {
+					note(wC)
+				}
 			}
 		case 'i':
 			// the database is flushed while a client is blocked on q (and a second client blocks after the flush): pushes
